@@ -818,8 +818,10 @@ pub fn check_main<P: Prop>(tier: Tier, seed: u64, workers: usize, extra: Option<
             other.insert(k.clone(), *v);
         }
     }
+    let evaluations = if st.evaluations_override > 0 { st.evaluations_override } else { st.cases };
     let mut cov = json!({
-        "evaluations": st.cases,
+        "evaluations": evaluations,
+        "scenarios": st.cases,
         "distinct_nontrivial": distinct,
         "rule": P::rule(),
         "samples": st.samples,
